@@ -787,7 +787,7 @@ def judge(b, res, oc, E):
                 bad("trunc-spurious:" + kind, "%s: the message fits, but the call returned %s with status.MPI_ERROR = %s" % (where, rc, err))
         else:
             if truncated and rc != TRUNC:
-                bad(("trunc-rc:" if err == TRUNC else "trunc-missed:") + kind + (":self" if m["selfmsg"] else ""), "%s: oversized, but the call returned %s (status.MPI_ERROR = %s), "
+                bad(("trunc-rc:" + kind) if err == TRUNC else ("trunc-missed:" + kind + (":self" if m["selfmsg"] else "")), "%s: oversized, but the call returned %s (status.MPI_ERROR = %s), "
                     "expected MPI_ERR_TRUNCATE = %s" % (where, rc, err, TRUNC))
             elif not truncated and rc != OK:
                 sticky = [x["k"] for x in M if x["k"] != s["k"] and x["nbytes"] > o["cap"] * m["tsize"] and b.thr[0] > 0
